@@ -98,6 +98,9 @@ func (server *Server) RegisterExexutor(cmd string, executor Executor) {
 func (server *Server) Start() error {
 	password, requirePass := server.ConfigRequirePass()
 	if requirePass {
+		// The password authenticator follows the configuration: one that an earlier start installed for another
+		// password is removed, so that after the password was changed exactly the new one is accepted.
+		server.RemoveClearTextPasswordAuthenticators("", password)
 		if !server.HasClearTextPasswordAuthenticator("", password) {
 			server.AddAuthenticator(auth.NewClearTextPasswordAuthenticatorWith("", password))
 		}
